@@ -202,6 +202,9 @@ def gen_scenarios(spec, rng, n):
             kinds.append("rest")
         client = rng.choice(kinds)
         nact = 1 if client != "async" else rng.choice([1, 2])
+        threads = client != "async" and rng.random() < 0.2     # REAL caller threads sharing one sync/REST client
+        if threads:
+            nact = rng.choice([2, 2, 3])
         actors = [{"start": 0.0, "ops": []} for _ in range(nact)]
         prev = None
         for j in range(rng.randint(1, 4)):
@@ -219,7 +222,11 @@ def gen_scenarios(spec, rng, n):
                 for op in a["ops"]:
                     op["call"] = dict(op.get("call") or {}, metadata=[["x-caller-tag", "shared"]], metadata_shared="m1")
         if actors:
-            out.append({"client": client, "actors": actors, "jitter_default": 0.0})
+            sc = {"client": client, "actors": actors, "jitter_default": 0.0}
+            if threads and len(sc["actors"]) > 1:
+                sc["threads"] = True
+                sc["sched_seed"] = rng.randrange(2 ** 32)
+            out.append(sc)
     return out
 
 
